@@ -299,6 +299,10 @@ def run(ctx, res):
     check_direct(ctx, res, hs)
     from harness.props import c07
     c07.net_scenarios(ctx, res, ctx.scale(1200, 80000), focus="c08")
+    # end-to-end recovery (C08's last sentence): real Producer + Consumers over real clients over the simulated
+    # cluster, finite fault sequences (leader moves, restarts, re-addressing), then the recovery monitors
+    from harness.lib import e2e_recovery
+    e2e_recovery.run(ctx, res, ctx.scale(100, 600))
 
 
 def search(ctx, res, broken):
@@ -328,6 +332,12 @@ def replay(ctx, data):
     if sc is None:
         print("nothing to replay in this file (broken proof?)", json.dumps(data)[:400])
         return 0
+    if f.get("stage") == "e2e_recovery" or any(str(t).startswith("e2e-recovery-") for t in f.get("tags", [])):
+        from harness.lib import e2e_recovery
+        rc = e2e_recovery.replay(ctx, sc)
+        if rc:
+            print("VIOLATION property=C08 replay=(this file)")
+        return rc
     if sc.get("driver") != "direct":
         from harness.props import c07
         return c07.replay(ctx, data)
